@@ -18,3 +18,7 @@ struct JournalVersion {
     major: u32,
     minor: u32,
 }
+
+/// Verification hook: crate-internal access to the private `prune` module (used by `crate::verif::journal`).
+#[cfg(it4innovations_hyperqueue_verif)]
+pub(crate) use prune::prune_journal as verif_prune_journal;
